@@ -28,6 +28,7 @@ func init() {
 		{WL: "patch", Cfg: "prop=C13", Quick: 250, Thor: 6000},
 		{WL: "patch", Cfg: "prop=C13,writefaults=1", Quick: 100, Thor: 3000},
 		{WL: "patch", Cfg: "prop=C13,conflicts=1", Quick: 150, Thor: 4000},
+		{WL: "patch", Cfg: "prop=C13,slowdelete=1", Quick: 150, Thor: 4000},
 	}
 }
 
@@ -50,6 +51,7 @@ func stripObj(o map[string]any) string {
 	if md, ok := c["metadata"].(map[string]any); ok {
 		delete(md, "namespace")
 		delete(md, "resourceVersion")
+		delete(md, "deletionTimestamp")
 	}
 	return canonJSON(c)
 }
@@ -190,6 +192,7 @@ func runPatchWL(e *Env) {
 	wl := e.WL
 	webhookPolicy(e, "pkg/kube/object_patch/", "pkg/shell-operator/operator.go")
 	writeFaults := e.CfgIs("writefaults", "1")
+	slowDelete := e.CfgIs("slowdelete", "1")
 	conflicts := e.CfgIs("conflicts", "1")
 	h := &HookSpec{Path: "p.sh", Sched: []SchedBinding{{Name: "tick", Crontab: "* * * * * *", Queue: "pq"}}}
 	o := NewOpSim(e, []*HookSpec{h})
@@ -244,7 +247,10 @@ func runPatchWL(e *Env) {
 		case 2:
 			d.M = map[string]any{"operation": "CreateOrUpdate", "object": objField}
 		case 3:
-			d.M = with(map[string]any{"operation": []string{"DeleteInBackground", "DeleteNonCascading"}[wl.Choose(2)]})
+			d.M = with(map[string]any{"operation": []string{"DeleteInBackground", "DeleteNonCascading", "Delete"}[wl.Choose(3)]})
+			if slowDelete && wl.Bias(1, 2) {
+				d.M["operation"] = "Delete"
+			}
 		case 4:
 			d.M = with(map[string]any{"operation": "MergePatch", "mergePatch": map[string]any{"data": map[string]any{"m": "p" + strconv.Itoa(nv)}}})
 		case 5:
@@ -255,6 +261,9 @@ func runPatchWL(e *Env) {
 			d.M = with(map[string]any{"operation": "JQPatch", "jqFilter": fmt.Sprintf(`.data.q = "q%d"`, nv), "ignoreMissingObject": wl.Choose(2) == 0})
 		default:
 			d.M = with(map[string]any{"operation": "DeleteInBackground"})
+			if slowDelete && wl.Bias(2, 3) {
+				d.M["operation"] = "Delete"
+			}
 		}
 		d.Desc = fmt.Sprint(d.M["operation"], " ", name)
 		return d
@@ -368,6 +377,26 @@ func runPatchWL(e *Env) {
 		planned++
 		x.Patch = render(streams[si], ns, yaml)
 		runs = append(runs, &run{Exec: x, Stream: si, NS: ns, YAML: yaml})
+		if slowDelete {
+			// foreground deletes of this execution leave the object terminating for 2.5 s: `Delete` waits
+			// until it is gone, so the outcome equals the fault-free one
+			api.mu.Lock()
+			api.SlowDeleteNames = map[string]bool{}
+			if e.FL.Choose(3) != 0 {
+				other := map[string]bool{}
+				for _, d := range streams[si].Docs {
+					if op := fmt.Sprint(d.M["operation"]); op == "DeleteInBackground" || op == "DeleteNonCascading" {
+						other[fmt.Sprint(d.M["name"])] = true
+					}
+				}
+				for _, d := range streams[si].Docs {
+					if n := fmt.Sprint(d.M["name"]); fmt.Sprint(d.M["operation"]) == "Delete" && !other[n] {
+						api.SlowDeleteNames[ns+"/"+n] = true
+					}
+				}
+			}
+			api.mu.Unlock()
+		}
 		if conflicts {
 			api.mu.Lock()
 			api.ConflictUpdates = 0 // conflicts not consumed by the previous execution do not pile up
@@ -430,14 +459,19 @@ func runPatchWL(e *Env) {
 				hi = next.StartSeq
 			}
 			var got []pWrite
+			applied := r.Exec.End // when the last write of this execution's patch was acknowledged
 			for _, w := range api.Log {
 				if w.By == "patcher" && w.Seq > r.Exec.EndSeq && w.Seq < hi {
 					got = append(got, pWrite{string(w.Type), w.Obj.GetName(), stripObj(w.Obj.Object)})
+					if w.At > applied {
+						applied = w.At
+					}
 				}
 			}
 			st := streams[r.Stream]
 			desc := fmt.Sprintf("execution #%d (%s, namespace %s) wrote %q", r.Exec.N, map[bool]string{false: "JSON", true: "YAML"}[r.YAML], r.NS, r.Exec.Patch)
-			failedObserved := next != nil && next.Start-r.Exec.End >= initial-time.Second // back-off before the retry
+			// back-off before the retry (time spent applying the patch, e.g. waiting for a foreground delete, does not count)
+			failedObserved := next != nil && next.Start-applied >= initial-time.Second
 			if invalidFor(st, r.YAML) {
 				simrt.Count("probe:stream-with-invalid-document")
 				sfx := ""
